@@ -8,6 +8,13 @@ PROPS = {
         ],
         "assumptions": ["numbers are opaque atoms in the model", "strings.EqualFold modelled for the words true/false/null/0 (ASCII fold plus U+017F)"],
     },
+    "C11": {
+        "corr": [("deps", {"quick": 2000, "thorough": 40000}), ("values", {"quick": 900, "thorough": 15000})],
+        "trusted_base": [
+            "modelled, not verified: semver range match between a dependency entry and the chart in charts/ (harness uses matching versions), import-values entries (none generated; the Values rewrite ProcessDependencies performs without them is modelled), text/template (probe templates only dump .Values)",
+        ],
+        "assumptions": ["the Lean model is value-semantic: it cannot alias, so every visible effect of Go map/pointer sharing is a model/implementation disagreement"],
+    },
     "C08": {
         "corr": [("manifests", {"quick": 1500, "thorough": 30000})],
         "trusted_base": [
